@@ -309,6 +309,8 @@ var c13Corpus = []c13Fixed{
 	// former evaluator panic (disjunctError type assertion), fixed by a312802: must import and judge
 	{`{"$defs":{"d":{"enum":[-2.5,2.0],"oneOf":[{"exclusiveMaximum":2.5},false,{"uniqueItems":true}]}},"properties":{"a":{"$ref":"#/$defs/d"}}}`, []string{`{"a":2.0}`, `{"a":-2.5}`, `{"a":1}`, `{}`}},
 	{`{"type":"integer"}`, []string{`1`, `1.0`, `1.5`, `"a"`}},
+	// anyOf-false-member-second-validator (found by the thorough tier)
+	{`{"properties":{"a":{"anyOf":[{"minimum":2},{"maxLength":0}]}},"patternProperties":{"^a":{"anyOf":[{"maxLength":3},false]}}}`, []string{`{"a":0}`, `{"a":"xxxx"}`, `{"b":1}`}},
 	{`{"type":["integer","number"]}`, []string{`1`, `1.5`}},
 	{`{"const":1}`, []string{`1`, `1.0`, `2`}},
 	{`{"enum":[1.0,"a"]}`, []string{`1`, `1.0`, `"a"`}},
@@ -352,6 +354,11 @@ var c13Witnesses = []c13Witness{
 	{"C13_allOf_enc_false", "allOf-member-without-constraints", `{"allOf":[true,{"minimum":3},{"maximum":5}]}`, `4`, "true"},
 	{"C13_type_step_false_literal", "number-literal-form", `{"type":"integer"}`, `1.0`, "true"},
 	{"C13_type_step_false_both", "type-integer-and-number", `{"type":["integer","number"]}`, `1.5`, "true"},
+}
+
+// observations OUTSIDE the property's keyword subset (prefixItems is not in the quantifier): the
+// Lean witness is replayed on the real importer and the outcome only counted/logged
+var c13Observations = []c13Witness{
 	{"C13_prefixItems_presence_false", "prefixItems-requires-presence", `{"prefixItems":[{"type":"string"}]}`, `[]`, "true"},
 }
 
